@@ -110,3 +110,179 @@ Proof. split; reflexivity. Qed.
 Example ex_walk : privacy_walk [PExpand 2; PExpand 2; PExpand 2; PExpand 2; PContract; PContract; PContract; PContract; PContract] None
   = Ok [Some 0; Some 1; Some 2; Some 2; Some 1; Some 0; None; None; None].
 Proof. reflexivity. Qed.
+
+(* ==================================================================================================
+   Extensions.
+
+   (a) What reaches the screen, view by view: Tui/Views.v (NEW model file, not yet part of the extracted
+       model the harness runs against the code) renders a whole frame - header, tabs | flows, bsod |
+       splash | chart | map | hop table (with the detail lines of the selected row), history and
+       frequency titles, info bar, settings | help - as a list of fragments tagged with what they were
+       computed from (literal; address / host names / AS / GeoIP of the hop with ttl t; map location
+       printed for hop t; source; target of trace i).  The privacy decisions inside it are the
+       functions of Tui/Privacy.v above; Views.v supplies what their normal branches print, in every
+       address / AS / GeoIP mode, for every resolver and GeoIP answer.
+   (b) How the level moves along histories of the application model Tui/App.v.
+   New proof files: Proofs/TuiViewsProofs.v, Proofs/TuiPrivacyHistory.v, Proofs/TuiFrameLemmas.v.
+   ================================================================================================== *)
+From TV Require Import Tui.Views Tui.App Proofs.TuiAppProofs Proofs.TuiFrameLemmas Proofs.TuiViewsProofs Proofs.TuiPrivacyHistory.
+Import TuiViews.
+
+(* ---- (a) frames ---- *)
+
+(* For EVERY application state (any view, any selection, any hop list, any configuration, any resolver
+   and GeoIP answers) with privacy ttl n in force: no fragment of the frame is the address, a host
+   name, the AS info or GeoIP data (table cell, detail line, map info panel) of a hop with ttl <= n,
+   and the source is not on screen.  (The target - header and tab titles - is outside the claim: F18.) *)
+Theorem c18_frame_no_hidden_hop_data : forall st fr mk n, render st = Ok (fr, mk) -> c_privacy (s_cfg st) = Some n ->
+  (forall f t, In f fr -> frag_ttl f = Some t -> n < t) /\ ~ In FSrc fr.
+Proof. exact render_no_hidden_hop_data. Qed.
+
+(* The same for any privacy value, as one predicate on fragments: literals and targets always, the
+   source only with privacy off, hop data only of hops that are not hidden. *)
+Theorem c18_frame_admissible : forall st fr mk, render st = Ok (fr, mk) -> frags_ok (c_privacy (s_cfg st)) fr.
+Proof. exact render_ok. Qed.
+
+(* Row by row: the text of a table row - Host cell by render_hostname, or the seven detail lines of
+   render_hostname_with_details when the row is selected in detail mode - is admissible, whatever the
+   selected hop address index, address mode, max_addrs, DNS and GeoIP answers are. *)
+Theorem c18_table_row_admissible : forall st sel h r, table_row st sel h = Ok r -> frags_ok (c_privacy (s_cfg st)) (fst r).
+Proof. exact table_row_ok. Qed.
+
+(* The map info panel (title "Hop n", location, or "no data for hop n (addresses)") likewise. *)
+Theorem c18_map_info_admissible : forall c es sel, frags_ok (c_privacy c) (map_info c es sel).
+Proof. exact map_info_ok. Qed.
+
+(* Map markers: every pin, accuracy circle and selection box of a frame belongs to a location at which
+   at least one VISIBLE hop is; a location all of whose hops are hidden leaves no mark at all. *)
+Theorem c18_map_marks_visible_location : forall st fr mk m, render st = Ok (fr, mk) -> In m mk ->
+  exists name ts, In (name, ts) (build_map_entries (s_cfg st) (s_hops st)) /\
+    (exists t, In t ts /\ hidden (c_privacy (s_cfg st)) t = false) /\
+    (m = MPin name \/ m = MRadius name \/ exists t, m = MSelBox name t).
+Proof. exact render_marks. Qed.
+
+Theorem c18_map_hidden_location_no_mark : forall c name ts sel_ttl,
+  (forall t, In t ts -> hidden (c_privacy c) t = true) -> map_marks c [(name, ts)] sel_ttl = [].
+Proof. exact map_marks_hidden_entry. Qed.
+
+(* REFUTED: "no marker is drawn FOR a hidden hop".  Hops 2 and 5 are geolocated at the same place,
+   privacy ttl 3, hop 2 selected, map shown: the location has a visible hop (5), so its pin is drawn -
+   and render_map_canvas_selected draws the selection rectangle around it because the SELECTED hop (2,
+   hidden) is one of the location's hops.  Together with the panel title "Hop 2" the frame tells where
+   GeoIP puts the hidden hop 2.  world.rs tests `entry.hops.contains(selected_hop.ttl())` without a
+   privacy test.  Candidate finding (graphical, not text: the sentinel search of the harness cannot see it). *)
+Theorem c18_map_selection_box_refuted :
+  exists st fr mk name t, render st = Ok (fr, mk) /\ In (MSelBox name t) mk /\ hidden (c_privacy (s_cfg st)) t = true /\
+    In (name, [t; 5]) (build_map_entries (s_cfg st) (s_hops st)).
+Proof. exact map_selection_box_leak. Qed.
+
+(* Hops beyond the limit are drawn exactly as without privacy: the whole table row (text and height),
+   the map info panel, and the marks of a location with a hop beyond the limit. *)
+Theorem c18_row_beyond_limit_unchanged : forall st sel h n, n < h_ttl h ->
+  table_row (st_with_privacy st (Some n)) sel h = table_row (st_with_privacy st None) sel h.
+Proof. exact table_row_above. Qed.
+
+Theorem c18_map_beyond_limit_unchanged :
+  (forall c es sel n, n < h_ttl sel -> map_info (with_privacy c (Some n)) es sel = map_info (with_privacy c None) es sel) /\
+  (forall c name ts sel_ttl n t, In t ts -> n < t ->
+     map_marks (with_privacy c (Some n)) [(name, ts)] sel_ttl = map_marks (with_privacy c None) [(name, ts)] sel_ttl).
+Proof. split; [exact map_info_above|exact map_marks_above]. Qed.
+
+(* A hidden row does not depend on the hidden hop's addresses at all - neither its text nor its
+   HEIGHT (1, or 7 for the selected row in detail mode), so the number of addresses does not leak
+   through the layout either. *)
+Theorem c18_hidden_row_independent : forall st sel h1 h2,
+  h_ttl h1 = h_ttl h2 -> h_total_recv h1 = h_total_recv h2 -> hidden (c_privacy (s_cfg st)) (h_ttl h1) = true ->
+  table_row st sel h1 = table_row st sel h2 /\
+  (0 < h_total_recv h1 -> forall r, table_row st sel h1 = Ok r ->
+     snd r = (if match sel with Some s => h_ttl s =? h_ttl h1 | None => false end && s_details st then 7 else 1)).
+Proof. exact table_row_hidden_independent. Qed.
+
+(* ---- (b) the level along histories of the application ---- *)
+
+(* The code has no configuration switch for the privacy keys; what it defines is: the level moves only
+   by expand_privacy / contract_privacy - called directly, or through their two keys while neither the
+   help nor the settings dialog is open.  Along any history none of whose ops is such an op in the state
+   where it is executed (all other keys and methods, data changes, frames) the level stays as it was. *)
+Theorem c18_level_moves_only_by_privacy_ops : forall ops w a w' a', TuiApp.run ops w a = Ok (w', a') ->
+  run_no_privacy_op ops w a -> TuiApp.privacy (TuiApp.a_view a') = TuiApp.privacy (TuiApp.a_view a).
+Proof. exact run_privacy. Qed.
+
+Theorem c18_dialog_blocks_privacy_keys : forall k w a w' a',
+  (TuiApp.show_help (TuiApp.a_view a) = true \/ TuiApp.show_settings (TuiApp.a_view a) = true) ->
+  TuiApp.handle_key k w a = Ok (w', a') -> TuiApp.privacy (TuiApp.a_view a') = TuiApp.privacy (TuiApp.a_view a).
+Proof. exact key_dialog_keeps_privacy. Qed.
+
+(* In the main view the two keys are exactly the step functions of c18_steps, with the hop count of
+   the flow on display (at most 254, so `privacy_max_ttl + 1` cannot overflow) - nothing else changes. *)
+Theorem c18_keys_are_the_step_functions : forall w a, valid w a ->
+  TuiApp.show_help (TuiApp.a_view a) = false -> TuiApp.show_settings (TuiApp.a_view a) = false ->
+  (exists hs q, TuiApp.hops_for_flow (TuiApp.data a) (TuiApp.sel_flow (TuiApp.a_sel a)) = Ok hs /\ TuiApp.zlen hs <= 254 /\
+     expand_privacy_step (TuiApp.zlen hs) (TuiApp.privacy (TuiApp.a_view a)) = Ok q /\
+     TuiApp.handle_key TuiApp.KExpandPrivacy w a = Ok (w, TuiApp.with_view a (TuiApp.set_privacy (TuiApp.a_view a) q))) /\
+  TuiApp.handle_key TuiApp.KContractPrivacy w a =
+    Ok (w, TuiApp.with_view a (TuiApp.set_privacy (TuiApp.a_view a) (contract_privacy_step (TuiApp.privacy (TuiApp.a_view a))))).
+Proof.
+  intros w a V Hh Hs. split; [apply key_expand_privacy; assumption|apply key_contract_privacy; assumption].
+Qed.
+
+(* Along EVERY history (data changes, keys, methods, frames) the level stays a u8: between 0 and
+   max(start value, 254) whenever it is on. *)
+Theorem c18_level_stays_u8 : forall B ops w a w' a', valid w a -> Forall op_wf ops -> TuiApp.run ops w a = Ok (w', a') ->
+  priv_inv B a -> priv_inv B a'.
+Proof. exact run_priv_inv. Qed.
+
+(* What is hidden grows with the level and is a prefix of the table: expand only hides more, contract
+   only reveals more, and a hop is never hidden while a nearer one is shown. *)
+Theorem c18_hidden_monotone :
+  (forall p q t, level p <= level q -> (forall n, p = Some n -> 0 <= n) -> hidden p t = true -> hidden q t = true) /\
+  (forall p t t', hidden p t = true -> t' <= t -> hidden p t' = true) /\
+  (forall hc p q t, expand_privacy_step hc p = Ok q -> hidden p t = true -> hidden q t = true) /\
+  (forall p t, hidden (contract_privacy_step p) t = true -> hidden p t = true).
+Proof.
+  split; [exact hidden_monotone|]. split; [exact hidden_prefix|]. split; [exact expand_hides_more|exact contract_reveals_more].
+Qed.
+
+(* The keyboard stops at the hop COUNT: however often the keys are pressed while the flow shows hc
+   hops, a hop whose ttl is above hc is never hidden. *)
+Theorem c18_keyboard_limit_is_hop_count : forall hc steps, 0 <= hc <= 254 -> Forall (pstep_ok hc) steps ->
+  exists r, privacy_walk steps None = Ok r /\ length r = length steps /\
+    Forall (fun q => forall t, hc < t -> hidden q t = false) r.
+Proof. exact walk_never_above_count. Qed.
+
+(* REFUTED: "the keyboard can hide every displayed hop".  With --first-ttl 3 the table shows ttl 3, 4, 5:
+   three hops, expand stops at 3, and the hops with ttl 4 and 5 - the far end of the path, the target
+   included - can never be hidden from the keyboard (only --tui-privacy-max-ttl can).  expand_privacy
+   compares the level with hops.len() instead of the highest ttl shown.  Observation, not a leak. *)
+Theorem c18_first_ttl_tail_refuted :
+  exists first_ttl hc ttl, 1 < first_ttl /\ first_ttl <= ttl < first_ttl + hc /\
+    forall steps, Forall (pstep_ok hc) steps ->
+      exists r, privacy_walk steps None = Ok r /\ Forall (fun q => hidden q ttl = false) r.
+Proof. exact first_ttl_tail_never_hidden. Qed.
+
+(* ---- non-vacuity of the extensions ---- *)
+
+(* a frame of the hop table (columns #, Host, Loss%): hop 2 hidden, hop 5 printed *)
+Example c18_ex_table_frame :
+  table_view (ex_table_state (Some 3)) =
+    Ok [FLit 1; FLit 0; FLit 2;  FLit 1; FLit L_HIDDEN; FLit 2;  FLit 1; FAddr 5 51; FLit L_LABEL; FLit L_LABEL; FLit 4; FLit 2].
+Proof. exact ex_table_frame. Qed.
+
+(* the whole frame of the map view renders, hides the source, prints the target *)
+Example c18_ex_map_frame :
+  match render (ex_map_state (Some 3)) with
+  | Ok (fr, mk) => In (FDest 0) fr /\ In (FLit L_HIDDEN) fr /\ mk = [MPin 7; MRadius 7; MSelBox 7 2]
+  | _ => False
+  end.
+Proof. vm_compute. split; [|split]; auto 10. Qed.
+
+(* a history of the application in which the level moves only at the privacy keys *)
+Example c18_ex_history :
+  match TuiApp.run [TuiApp.OFrame; TuiApp.OKey TuiApp.KExpandPrivacy; TuiApp.OKey TuiApp.KExpandPrivacy; TuiApp.OKey TuiApp.KToggleHelp;
+                    TuiApp.OKey TuiApp.KExpandPrivacy; TuiApp.OKey TuiApp.KToggleHelp; TuiApp.OKey TuiApp.KContractPrivacy]
+          [TuiApp.mk_shape 1 false [] [TuiApp.mk_flow 0 1 [TuiApp.mk_hop 1 1; TuiApp.mk_hop 1 2]]]
+          (TuiApp.tui_new [(104, true)] None None 0 false true) with
+  | Ok (_, a) => TuiApp.privacy (TuiApp.a_view a) = Some 0
+  | _ => False
+  end.
+Proof. vm_compute. reflexivity. Qed.
